@@ -1203,9 +1203,10 @@ func c03(c *h.Ctx) {
 
 	// 6c. large packets behind a large chunk size: Set Chunk Size above the reader's own buffer sizes, then a connect
 	// whose command object makes the payload cross them, then an ordinary request that must still arrive
-	for _, cs := range []int{128, 4095, 4096, 4097, 5000, 60000} {
+	// (all uint32 control values: also sizes with the top bit set — both ends must take the same 32 bits)
+	for _, cs := range []int{128, 4095, 4096, 4097, 5000, 60000, 0x7fffffff, 0x80000001, 0x800000c8, 0x80001000, 0xffffff40, 0xffffffff} {
 		for _, L := range []int{100, 4000, 4096, 4200, 9000, 20000} {
-			if !c.Thorough() && (cs+L)%3 == 0 {
+			if !c.Thorough() && (cs+L)%3 == 0 && cs < 0x7fffffff {
 				continue
 			}
 			a, b := c03Pair()
